@@ -65,6 +65,19 @@ def renderOut (o : Out) : String := s!"hook/{o.hook}/{"+".intercalate (o.diffs.m
 
 def renderMembers (l : List (Addr × Nat)) : String := joinC (l.map fun p => s!"{p.1}:{p.2}")
 
+/-- A changelog in ascending height order. -/
+def sortLog (l : Log Nat) : List (Nat × Option Nat) :=
+  l.mergeSort (fun a b => decide (a.1 ≤ b.1))
+
+open Paginate in
+/-- Raw dump of a `SnapshotMap` changelog: `addr@height:old`, by address then height. -/
+def renderMapLog (log : AMap Addr (Log Nat)) : String :=
+  joinC ((sortedEntries strLt log).flatMap fun (a, l) => (sortLog l).map fun e => s!"{a}@{e.1}:{optNatStr e.2}")
+
+/-- Raw dump of a `SnapshotItem` changelog: `height:old`. -/
+def renderItemLog (log : Log Nat) : String :=
+  joinC ((sortLog log).map fun e => s!"{e.1}:{optNatStr e.2}")
+
 open Paginate in
 def obsOf (m : MState) : Args :=
   match m.st with
@@ -80,7 +93,48 @@ def obsOf (m : MState) : Args :=
      ("mh", joinC mh),
      ("th", joinC th),
      ("rawtotal", optNatStr s.total.cur),
-     ("rawmem", joinC (m.pool.map fun a => s!"{a}:{optNatStr (s.members.get? a)}"))]
+     ("rawmem", joinC (m.pool.map fun a => s!"{a}:{optNatStr (s.members.get? a)}")),
+     -- the harness's record of the heights with a successful op (the at-height probes are taken there)
+     ("hs", joinC (m.heights.map toString)),
+     -- raw dumps of the two snapshot changelogs (`MEMBERS.changelog()`, `TOTAL.changelog()`)
+     ("mlog", renderMapLog s.members.log),
+     ("tlog", renderItemLog s.total.log)]
+
+/-! ## Re-synchronisation -/
+
+def optNatOf (s : String) : Option Nat := if s == "-" then none else s.toNat?
+
+/-- `addr@h:old` -/
+def parseMlog (e : String) : Option (String × Nat × Option Nat) :=
+  match e.splitOn "@" with
+  | [a, r] =>
+    match r.splitOn ":" with
+    | [h, o] => h.toNat?.map fun h => (a, h, optNatOf o)
+    | _ => none
+  | _ => none
+
+/-- `h:old` -/
+def parseTlog (e : String) : Option (Nat × Option Nat) :=
+  match e.splitOn ":" with
+  | [h, o] => h.toNat?.map fun h => (h, optNatOf o)
+  | _ => none
+
+/-- Everything is in the observation: admin, hooks (in order), the member listing, the raw total, the two
+changelogs (`mlog`, `tlog`: exact raw dumps) and the recorded heights (`hs`; the first is the
+instantiation height).  Current height, pool and `wide` stay. -/
+def resyncOf (m : MState) (o : Args) : Option MState :=
+  if (o.get "uninit").isSome then some { m with st := none, h0 := 0, heights := [] } else
+  let cur : AMap Addr Nat := (o.list "members").foldl (fun acc e => let p := parsePair e; acc.set p.1 p.2) []
+  -- newest entry first, as `SnapMap.write` builds it
+  let mlog : AMap Addr (Log Nat) := ((o.list "mlog").filterMap parseMlog).foldl (fun acc (a, h, old) =>
+    acc.set a ((h, old) :: (acc.get? a).getD [])) []
+  let tlog : Log Nat := ((o.list "tlog").filterMap parseTlog).reverse
+  let heights := (o.list "hs").filterMap String.toNat?
+  some { m with
+    st := some { admin := o.optStr "admin", hooks := o.list "hooks",
+                 members := { cur := cur, log := mlog },
+                 total := { cur := optNatOf (o.str "rawtotal"), log := tlog } },
+    h0 := heights.head?.getD m.h0, heights := heights }
 
 def err (m : MState) (tag : String) : MState × StepResult := (m, { ok := some false, tag := tag })
 
@@ -286,5 +340,6 @@ def scen : Scen MState Mon where
   obs := obsOf
   monInit _ := {}
   monitor := monitorOp
+  resync := some resyncOf
 
 end CwPlus.Driver.Cw4Group
